@@ -704,7 +704,7 @@ where
                 token::symbol_index(
                     input,
                     "bad state property index",
-                    self.parser.header.latch_count - 1,
+                    self.parser.header.bad_state_property_count - 1,
                 )
                 .map(SymbolTarget::BadStateProperty)
             })
@@ -719,7 +719,7 @@ where
                 token::symbol_index(
                     input,
                     "invariant constraint index or newline", // could be a comment
-                    self.parser.header.latch_count - 1,
+                    self.parser.header.invariant_constraint_count - 1,
                 )
                 .map(SymbolTarget::InvariantConstraint)
             })
@@ -734,7 +734,7 @@ where
                 token::symbol_index(
                     input,
                     "justice property index",
-                    self.parser.header.latch_count - 1,
+                    self.parser.header.justice_property_count - 1,
                 )
                 .map(SymbolTarget::JusticeProperty)
             })
@@ -749,7 +749,7 @@ where
                 token::symbol_index(
                     input,
                     "fairness constraint index",
-                    self.parser.header.latch_count - 1,
+                    self.parser.header.fairness_constraint_count - 1,
                 )
                 .map(SymbolTarget::FairnessConstraint)
             })
